@@ -183,6 +183,9 @@ def _run_one(hname):
         maxlen = int(d.get("maxlen", cfg.get("maxlen", 1 << 31)))
         cfg.setdefault("tmpdir", os.path.join(WORK, "tmp"))
         cfg.setdefault("opaque_calls", unit.get("opaque_calls", []))
+        if tier == "thorough":
+            cfg.setdefault("diff_every", int(os.environ.get("VERIF_DIFF_EVERY", "40")))
+            cfg.setdefault("witness_paths", int(os.environ.get("VERIF_WITNESS_PATHS", "3")))
         os.makedirs(cfg["tmpdir"], exist_ok=True)
         ex = Executor(_PROG, mode=mode, unwind=unwind, maxlen=maxlen, cfg=cfg,
                       timeout_ms=int(cfg.get("solver_timeout_ms", 120000)))
@@ -211,7 +214,7 @@ def _run_one(hname):
             "paths": s.paths_done, "nontrivial_paths": s.nontrivial_paths, "queries": s.queries, "solver_time": round(s.solver_time, 3),
             "asserts": s.asserts, "reached": s.reached, "funcs": sorted(s.funcs), "stubs": sorted(s.stubs),
             "unknown": s.unknown, "max_unwind": s.max_unwind, "samples": s.samples,
-            "merged_ifs": s.merged_ifs, "merged_calls": s.merged_calls, "procs": s.procs,
+            "merged_ifs": s.merged_ifs, "merged_calls": s.merged_calls, "procs": s.procs, "diff": s.diff, "witnesses": s.witnesses,
             "violations": [v.asdict() for v in ex.violations],
             "inconclusive": sorted(set(ex.inconclusive)),
         })
@@ -250,6 +253,27 @@ def run_replay(prop, unit, hname, tp):
     if not m:
         return "ERROR " + r.stdout[-2000:]
     return m.group(1).strip()
+
+
+def run_replay_batch(prop, unit, entries):
+    wd = unit_workdir(prop, unit)
+    ov, _ = build_overlay(prop, unit, native=True)
+    ovf = os.path.join(wd, "overlay_native.json")
+    json.dump({"Replace": ov}, open(ovf, "w"))
+    lst = os.path.join(wd, "witness_list.txt")
+    open(lst, "w").write("".join("%s\t%s\n" % e for e in entries))
+    env = dict(GOENV, VREPLAY_LIST=lst)
+    cmd = ["go", "test", "-v", "-vet=off", "-count=1", "-overlay", ovf, "-run", "^TestVReplay$", "-timeout", "300s"]
+    if unit.get("tags"):
+        cmd += ["-tags", unit["tags"]]
+    cmd += ["."]
+    r = subprocess.run(cmd, cwd=os.path.join(REPO, unit["pkgdir"]), stdout=subprocess.PIPE, stderr=subprocess.STDOUT, text=True, env=env)
+    out = []
+    for m in re.finditer(r"VREPLAY-BATCH: ([^\t]*)\t([^\t]*)\t(.*)", r.stdout):
+        out.append((m.group(1), m.group(2), m.group(3).strip()))
+    if not out:
+        out = [(h, tp, "ERROR " + r.stdout[-300:]) for h, tp in entries]
+    return out
 
 
 def load_known():
@@ -351,6 +375,34 @@ def check(prop, tier, only=None):
                         violations_out.append((r["harness"], v, tp))
                 else:
                     spurious.append((r["harness"], v, verdict))
+    # ---- translator validation (thorough): witness tapes of passing paths must replay natively with verdict OK
+    tv = {"witness_tapes_replayed": 0, "agreed": 0, "disagreed": []}
+    for unit, results in all_results:
+        entries = []
+        for r in results:
+            for wi, tape in enumerate(r.get("witnesses", [])[:3]):
+                rd = os.path.join(EVID, "replay")
+                os.makedirs(rd, exist_ok=True)
+                cfg = dict(unit.get("cfg", {}))
+                cfg.update(unit.get("cfg_" + tier, {}))
+                tp = os.path.join(WORK, "tmp", "witness-%s-%s-%d.json" % (prop, r["harness"], wi))
+                os.makedirs(os.path.dirname(tp), exist_ok=True)
+                json.dump({"property": prop, "unit": unit["name"], "harness": r["harness"], "maxlen": str(r.get("maxlen", 1 << 31)), "cfg": cfg.get("vcfg", {}), "tape": tape}, open(tp, "w"))
+                entries.append((r["harness"], tp))
+        if not entries:
+            continue
+        for h, tp, verdict in run_replay_batch(prop, unit, entries):
+            tv["witness_tapes_replayed"] += 1
+            if verdict == "OK" or verdict.startswith("SKIP replay buffer too large"):
+                tv["agreed"] += 1
+            else:
+                tv["disagreed"].append({"harness": h, "native": verdict[:160]})
+                inconclusive.append("%s: a witness input of a passing symbolic path does not replay natively (%s) - translator/stub disagreement" % (h, verdict[:80]))
+            try:
+                os.unlink(tp)
+            except OSError:
+                pass
+    check._tv = tv
     # ---- output
     for kf, v, h in known_printed:
         print("KNOWN-FINDING: property=%s %s [harness=%s label=%s]" % (prop, kf.get("what", ""), h, v["label"]))
@@ -388,6 +440,7 @@ def write_evidence(prop, tier, seed, spec, unit_meta, all_results, violations_ou
     samples = []
     per_harness = []
     bounds = {}
+    diff = {"sampled": 0, "agree": 0, "disagree": 0, "unknown": 0, "errors": 0, "notes": []}
     for unit, results in all_results:
         for r in results:
             for lbl, a in r.get("asserts", {}).items():
@@ -398,6 +451,9 @@ def write_evidence(prop, tier, seed, spec, unit_meta, all_results, violations_ou
             stubs.update(r.get("stubs", []))
             queries += r.get("queries", 0)
             stime += r.get("solver_time", 0)
+            for kk in ("sampled", "agree", "disagree", "unknown", "errors"):
+                diff[kk] += r.get("diff", {}).get(kk, 0)
+            diff["notes"] = (diff["notes"] + r.get("diff", {}).get("notes", []))[:6]
             paths += r.get("paths", 0)
             for s in r.get("samples", [])[:1]:
                 if len(samples) < 6:
@@ -421,7 +477,7 @@ def write_evidence(prop, tier, seed, spec, unit_meta, all_results, violations_ou
             "explanation": spec.get("explanation", "") + " Verdicts are SMT (z3 %s) answers over symbolic inputs within the stated bounds; 'discharged' counts obligations whose negation was unsat under the path condition." % _z3v(),
             "evaluations": max(obligations, 1),
             "distinct_nontrivial": max(nontrivial, 0),
-            "rule": "one evaluation = one (harness, assertion, path) obligation sent to the solver; non-trivial = the path condition or the asserted term is symbolic (depends on at least one nondeterministic input)",
+            "rule": "one evaluation = one (harness, assertion label, path) obligation; distinct by construction (different path or different assertion); non-trivial = the asserted term did not simplify to true syntactically, i.e. the obligation was decided by an SMT query under the path condition",
             "obligations": obligations,
             "discharged": discharged,
             "paths": paths,
@@ -433,6 +489,8 @@ def write_evidence(prop, tier, seed, spec, unit_meta, all_results, violations_ou
             "harnesses": per_harness,
             "bounds": spec.get("bounds", {}),
             "outside": spec.get("outside", []),
+            "second_solver_cross_check": dict(diff, solvers=["z3 4.8.12 (/usr/bin/z3)", "cvc5"], rule="every N-th discharged obligation is re-decided through SMT-LIB2 text; thorough tier only"),
+            "translator_validation": getattr(check, "_tv", None),
             "counterexamples_replayed": nreplayed,
             "known_findings_printed": [k.get("what") for k, _, _ in known_printed],
             "spurious": [{"harness": h, "label": v["label"], "native": verdict[:200]} for h, v, verdict in spurious],
